@@ -134,6 +134,60 @@ def command_property(prop, tier, seed, selkey=None, level="proof"):
                                "mixed shapes, parameter grids incl. out-of-range and absent optionals; a case is non-trivial if it is "
                                "inside the spec's admissible inputs; distinct by full input"}
 
+    if prop in ("C09", "C02"):
+        # a produced result survives every consumer (chains over the real commands, single- and two-input forms, the CSV writer)
+        t1 = time.time()
+        icases = cmdprops.immutability_cases(repo, classes, tier, seed)
+        iouts = replay.run_real(icases, repo_root=root)
+        ifails = 0
+        for c, o in zip(icases, iouts):
+            bad = cmdprops.judge_immutability(c, o)
+            if any(b[0] == "harness-error" for b in bad):
+                rep.errors.append("immutability battery: %s" % (bad[0][1],))
+            elif bad:
+                ifails += 1
+                rep.violations.append({"obligation": "%s::%s.execute/bounded:result-survives-consumers" % (classes[c["class"]].module.relpath, c["class"]),
+                                       "function": "consumers of the result of %s" % c["class"], "how": "bounded-concrete", "case": c, "real": o.get("then"),
+                                       "violated": ["frame"], "violated_detail": bad, "confirmed": True})
+        part = {"name": "result-survives-consumers", "evaluations": sum(len((o.get("then") or {}).get("chain", [])) for o in iouts), "distinct_nontrivial": len(icases),
+                "failures": ifails, "wall_s": round(time.time() - t1, 1),
+                "rule": "every data command as producer (battery inputs incl. out-of-range parameters) followed, in random order, by every command that can take its "
+                        "result (unary, single-input and two-input forms of the n-ary ones with weights 1 and 3, the CSV writer); the result is compared after each consumer"}
+        prev = rep.bounded
+        if prev:
+            rep.bounded = dict(prev, parts=[dict(prev, name="per-command"), part], evaluations=prev.get("evaluations", 0) + part["evaluations"],
+                               distinct_nontrivial=prev.get("distinct_nontrivial", 0) + part["distinct_nontrivial"], failures=prev.get("failures", 0) + ifails)
+        else:
+            rep.bounded = dict(part, label="bounded (never counted as proved)")
+    if prop == "C09":
+        # the writers are consumers too: their frame obligations (proved on the real bodies) belong to this property
+        try:
+            from . import ioprops, loadrun
+
+            for which in ("csv", "netcdf"):
+                recs_io, fns_io = ioprops.verify(repo, which)
+                rep.functions += fns_io
+                loadrun.add_records(rep, [loadrun._strip(r) for r in recs_io if "EEMSWrite" in r.get("name", "")], {"frame", "invariant"})
+        except Exception as e:
+            rep.errors.append("I/O writers: %s: %s" % (type(e).__name__, e))
+        # ... and on real files: writing one or several results (with different missing cells) leaves each of them as it was
+        from . import iocases
+
+        wc = [c for c in iocases.csv_cases(tier, seed) if c["kind"] == "csv_roundtrip"] + [c for c in iocases.nc_cases(tier, seed) if c["kind"] == "nc_roundtrip"]
+        wo = iocases.run_real(wc, root)
+        wf = 0
+        for c, o in zip(wc, wo):
+            if "harness_error" in o:
+                rep.errors.append("writer battery: %s" % o["harness_error"][-300:])
+            elif o.get("inputs_after") != o.get("inputs_before"):
+                wf += 1
+                rep.violations.append({"obligation": "mpilot/libraries/eems/%s/io.py::EEMSWrite.execute/bounded:inputs-unchanged" % ("csv" if c["kind"].startswith("csv") else "netcdf"),
+                                       "function": "EEMSWrite.execute", "how": "bounded-concrete", "case": c, "real": {"before": o.get("inputs_before"), "after": o.get("inputs_after")},
+                                       "violated": ["frame"], "confirmed": True})
+        rep.bounded = dict(rep.bounded, parts=list(rep.bounded.get("parts", [])) + [{"name": "writers-leave-inputs-unchanged", "evaluations": len(wc), "distinct_nontrivial": len(wc),
+                                                                                     "failures": wf}],
+                           evaluations=rep.bounded.get("evaluations", 0) + len(wc), failures=rep.bounded.get("failures", 0) + wf)
+
     def rerun(w):
         if not w or w.get("kind") != "command-case":
             return None
@@ -234,6 +288,8 @@ PARAM_CLAUSES = {
     "C20": {"typed", "deterministic", "idempotent", "pure", "raises_only", "cover"},
     "C13": {"raises_only", "str", "cover"},
     "C12": {"typed", "cover"},
+    "C01": {"pure", "cover"},
+    "C02": {"pure", "cover"},
     "C11": {"lineno", "cover"},
 }
 
@@ -460,6 +516,21 @@ def heap_property(prop, tier, seed):
         elif r["status"] != "unsat":
             rep.undecided.append({"obligation": r["name"], "reason": r.get("reason")})
     if prop == "C01":
+        # finished results never change: validation (Parameter.clean) is part of every later consumer's run and must leave the program alone
+        param_part(rep, "C01", tier, seed)
+    # class invariant CI-FUZZY used by the heap contracts: `is_fuzzy` of a command is data (a class attribute), never code
+    from .decl import command_classes
+    _repo = Repo(root)
+    for ci in command_classes(_repo):
+        fi_ = _repo.find_method(ci, "is_fuzzy")
+        ok_ = fi_ is None
+        rep.add_vc("%s::%s/CI-FUZZY: is_fuzzy is a class attribute, not a method or property" % (ci.module.relpath, ci.name), "unsat" if ok_ else "sat",
+                   "%s::%s" % (ci.module.relpath, ci.name), "inv", "extractor", 0)
+        if not ok_:
+            rep.violations.append({"obligation": "%s::%s/CI-FUZZY: is_fuzzy is a class attribute, not a method or property" % (ci.module.relpath, ci.name),
+                                   "how": "syntactic (class invariant assumed by the contracts of Command.run / ResultParameter.clean)", "confirmed": False,
+                                   "detail": {"goal": "reading is_fuzzy runs %s" % fi_.key}})
+    if prop == "C01":
         # touches-all-refs of the built-in execute bodies (the part of the plugin contract that is proved)
         repo = Repo(root)
         SPECS, classes = registry.load(repo)
@@ -497,9 +568,32 @@ def heap_property(prop, tier, seed):
             fails += 1
             rep.violations.append({"obligation": "mpilot/program.py::Program.run/bounded:%s" % rel[0][0], "function": "mpilot/program.py::Program.run",
                                    "how": "bounded-concrete", "case": c, "real": o, "violated": [b[0] for b in bad], "violated_detail": bad, "confirmed": True})
-    rep.bounded = {"label": "bounded (never counted as proved)", "evaluations": len(cases), "distinct_nontrivial": len(distinct), "failures": fails,
+    extra_parts = []
+    if rep.bounded:
+        extra_parts.append(dict(rep.bounded, name="cleaners"))
+    if prop == "C14":
+        from . import loadcases as L
+
+        cc = L.cyclic_model_cases(tier)
+        co = L.run_real(cc, root, workers=8)
+        cf = 0
+        for c, o in zip(cc, co):
+            bad = L.judge_cyclic(c, o)
+            if any(b[0] == "harness-error" for b in bad):
+                rep.errors.append("cyclic-model battery: %s" % (bad[0][1],))
+            elif bad:
+                cf += 1
+                rep.violations.append({"obligation": "mpilot/program.py::Program.run/bounded:real-library:%s" % bad[0][0], "function": "mpilot/program.py::Program.run",
+                                       "how": "bounded-concrete", "case": dict(c, expect_cyclic=True), "real": o, "violated": [b[0] for b in bad], "violated_detail": bad,
+                                       "confirmed": True})
+        extra_parts.append({"name": "real-library cyclic models", "evaluations": len(cc), "distinct_nontrivial": len(cc), "failures": cf})
+    rep.bounded = {"label": "bounded (never counted as proved)", "parts": extra_parts,
+                   "evaluations": len(cases) + sum(p.get("evaluations", 0) for p in extra_parts), "distinct_nontrivial": len(distinct) + sum(p.get("distinct_nontrivial", 0) for p in extra_parts),
+                   "failures": fails + sum(p.get("failures", 0) for p in extra_parts if p.get("name") != "cleaners"),
                    "wall_s": round(time.time() - t0, 1),
-                   "rule": "digraphs on <=%d commands (self-loops, 2-cycles, longer cycles, tails; up to 4 edges) realised through direct, list, "
+                   "rule": "multi-step histories (a run that fails part-way and is repeated once the fault is gone; a rejected cyclic model used again); cyclic models over the "
+                           "real libraries in every order (C14); the cleaners' value battery (C01: purity); "
+                           "digraphs on <=%d commands (self-loops, 2-cycles, longer cycles, tails; up to 4 edges) realised through direct, list, "
                            "nested-list and mixed references, shuffled textual order, built through the API and from source text over counting "
                            "stub commands; actions run, run, result; non-trivial = the graphs in this property's quantifier (acyclic for C01, "
                            "cyclic for C14); distinct by program" % (3 if tier == "quick" else 4)}
@@ -760,6 +854,10 @@ def conv_property(prop, tier, seed):
         elif r["status"] != "unsat":
             rep.undecided.append({"obligation": r["name"], "reason": r.get("reason") or "unknown"})
     rep.samples = [{"obligation": r["name"], "verdict": r["status"], "goal": r.get("goal")} for r in recs[:4]]
+    # the call site in Program.from_source: the whole parsed list goes through the converter, and the loader iterates over its output
+    from . import loadrun
+
+    loadrun.load_part(rep, root, {"convert"}, which=("from_source",))
     t0 = time.time()
     cases = convprops.v2_cases(repo, table)
     outs = convprops.run_v2(cases, root)
@@ -815,6 +913,15 @@ def ser_property(prop, tier, seed):
         elif r["status"] != "unsat":
             rep.undecided.append({"obligation": r["name"], "reason": r.get("reason") or "unknown"})
     rep.samples = [{"obligation": r["name"], "verdict": r["status"]} for r in recs[:4]]
+    # the load-back step: Parser.parse starts every parse from a clean state (line 1, EEMS 2.0 flag cleared), whatever was parsed before
+    try:
+        from . import parseprops, loadrun
+
+        pr, pf = parseprops.verify_parse_entry(Repo(root))
+        rep.functions += pf
+        loadrun.add_records(rep, [loadrun._strip(x) for x in pr], None)
+    except Exception as e:
+        rep.errors.append("parse entry: %s: %s" % (type(e).__name__, e))
     t0 = time.time()
     cases = rtcases.cases(tier if not rep.undecided else "thorough", seed)
     outs = rtcases.run_real(cases, root)
@@ -900,6 +1007,10 @@ def io_property(prop, tier, seed):
         rep.add_vc(r["name"], r["status"], r.get("function"), "helper", r.get("backend"), r.get("time_s", 0))
         if r["status"] != "unsat":
             rep.undecided.append({"obligation": r["name"], "reason": r.get("reason") or r["status"]})
+    if helper.get("unsupported"):
+        rep.undecided.append({"obligation": "validate_array_shapes/*", "reason": "unsupported construct: %s" % helper["unsupported"]})
+    if helper.get("error"):
+        rep.errors.append("validate_array_shapes: %s" % helper["error"])
     t0 = time.time()
     cases = iocases.csv_cases(tier, seed) if which == "csv" else iocases.nc_cases(tier, seed)
     outs = iocases.run_real(cases, root)
